@@ -29,7 +29,9 @@ class HarnessError(Exception):
 
 
 class Controller(object):
-    def __init__(self, plan=None, default_mode="lazy", boundary=True):
+    def __init__(self, plan=None, default_mode="lazy", boundary=True, nworkers=None):
+        import os as _os
+        self.nworkers = nworkers or (_os.cpu_count() or 1)    # what Pool() without argument starts
         self.plan = dict(plan or {})     # call index -> (perm tuple or None, mode or None)
         self.default_mode = default_mode
         self.calls = []                  # per pool call: dict(kind, n, flavor, perm, mode)
@@ -214,6 +216,9 @@ class FakePool(object):
         self.ctl = ACTIVE
         self.ctl.pools_created += 1
         self.closed = False
+        procs = a[0] if a else k.get("processes", k.get("nodes", k.get("ncpus")))
+        self._processes = int(procs) if procs else self.ctl.nworkers
+        self.ncpus = self.nodes = self._processes          # pathos spellings
 
     # --- helpers
     def _start(self, kind, func, tasks):
@@ -391,8 +396,8 @@ def install():
 class controlled(object):
     """with controlled(plan) as ctl: <run a tool>"""
 
-    def __init__(self, plan=None, default_mode="lazy", boundary=True):
-        self.ctl = Controller(plan, default_mode, boundary)
+    def __init__(self, plan=None, default_mode="lazy", boundary=True, nworkers=None):
+        self.ctl = Controller(plan, default_mode, boundary, nworkers)
 
     def __enter__(self):
         global ACTIVE
